@@ -3,7 +3,7 @@
    instance RN (exact arithmetic; binary64 rounding is outside, see DESIGN 3.1). *)
 From Coq Require Import List Bool Arith Reals.
 From ART Require Import Num NumR Vec Search Kernel BaseArt BaseArt_proofs BaseArt_folds
-     Fuzzy Fuzzy_R Hyper Hyper_R ART1 ART1_R Bounds_R.
+     Fuzzy Fuzzy_R Hyper Hyper_R ART1 ART1_R Bounds_R Hyper_total Fuzzy_fit_bound.
 Import ListNotations.
 Open Scope nat_scope.
 
@@ -66,6 +66,14 @@ Theorem C02_fuzzy_size_bound :
     step_fit (@fuzzyK RN alpha beta) s x veto m eps = Some (s', c, vl) ->
     Forall (fz_ok rho0 d (length x)) (W s').
 Proof. exact fuzzy_step_bound. Qed.
+(* ... hence for every category of every state reached by fit on complement-coded rows *)
+Theorem C02_fuzzy_size_bound_after_fit :
+  forall alpha beta, 0 <= beta <= 1 ->
+  forall (s : st (N:=RN)) X veto m eps rho0 d n s' ls,
+    raising m eps -> rho0 <= 1 -> 0 < d -> rho s = [rho0] -> Forall (cc_row d n) X ->
+    fit (@fuzzyK RN alpha beta) s X veto m eps = Some (s', ls) ->
+    Forall (fun w => rho0 * d <= @l1norm RN w) (W s').
+Proof. exact fuzzy_fit_size_bound. Qed.
 Print Assumptions C02_fuzzy_size_bound.
 
 (* ---- ART1 ---- *)
@@ -105,6 +113,13 @@ Theorem C02_hs_radius_bound :
   forall beta r d r_hat rho, 0 <= beta <= 1 -> 0 < r_hat -> 0 <= r ->
     rho <= 1 - Rmax r (Rmax r d) / r_hat -> hs_radius' beta r d <= r_hat * (1 - rho).
 Proof. exact hs_radius_bound. Qed.
+(* ... and in every state reached by fit, under every mode that never lowers the vigilance *)
+Theorem C02_hs_radius_bound_after_fit :
+  forall (alpha beta r_hat : R), 0 <= beta <= 1 -> 0 < r_hat ->
+  forall (s : st (N:=RN)) X veto m eps rho0 s' ls,
+    raising m eps -> rho0 <= 1 -> rho s = [rho0] -> fit (@hyperK RN alpha beta r_hat) s X veto m eps = Some (s', ls) ->
+    Forall (fun w => 0 <= @hs_radius RN w <= r_hat * (1 - rho0)) (W s').
+Proof. exact hyper_fit_radius_bound. Qed.
 Theorem C02_ell_radius_mono : forall beta r d, 0 <= beta -> r <= r + (beta / 2) * (Rmax r d - r).
 Proof. exact ell_radius_mono. Qed.
 Theorem C02_ell_radius_bound :
